@@ -27,15 +27,16 @@ THEOREMS = ['C10_every_function_once', 'C10_skip_zero_hides_exactly_no_hits',
             'C10_f1_precision', 'C10_f2_precision', 'C10_g_precision_partial',
             'C10_sort', 'C10_sort_default_by_key', 'C10_summarize',
             'C10_skipzero_summary_matches_details', 'C10_viewer_cli_every_function_once',
-            'C10_kernprof_view_every_function_once', 'C10_nonvacuous']
+            'C10_kernprof_view_every_function_once', 'C10_print_stats_every_function_once', 'C10_nonvacuous']
 LEVEL = 'proof'
 DRIVER = 'harness.drivers.c10'
 FINDING = 'C10-skipzero-summary-filters-on-time'
 FINDING_CELL = 'C10-ipython-cell-rows-lost-after-file-block'
-N_CANONICAL = 5
+N_CANONICAL = 7
+ENTRIES = ['show_text', 'show_text', 'print_stats', 'viewer']
 
 COMBOS = [list(c) for c in itertools.product([False, True], repeat=4)]   # strip, sort, summarize, details
-UNITS = [1e-9, 1e-7, 1e-6, 1.0]
+UNITS = [1e-9, 1e-7, 1e-6, 1.0, 1e-3, 2.5e-7]
 OUT_UNITS = [None, 1e-6, 1e-3, 1.0, 7e-5]
 
 # ----------------------------------------------------------------------------------------
@@ -388,23 +389,41 @@ def run_sessions(impl, sessions, tmp):
     return cases, outs, errors
 
 
+def with_entry(case, entry):
+    """Route the case through one of the entry points that print given statistics: show_text itself,
+    LineProfiler.print_stats() of a profiler whose get_stats() returns LineStats(stats, unit), or the
+    viewer main() on the pickled LineStats (details always on, -u always given: default 1e-6)."""
+    case['entry'] = entry
+    if entry == 'viewer':
+        case['combos'] = [c for c in COMBOS if c[3]]
+        if case['output_unit'] is None:
+            case['output_unit'] = 1e-6
+    return case
+
+
 def gen_cases(tier, rnd, tmpdir):
     n_valid, n_bad, n_hist = (60, 12, 6) if tier == 'quick' else (1600, 320, 60)
     cases = [finding_case(tmpdir, 0), ties_case(tmpdir, 1, 1.0, None), ties_case(tmpdir, 2, 1e-6, 1e-6),
-             ties_case(tmpdir, 3, 1e-9, 1e-3), cell_finding_case(tmpdir, 4)]
+             ties_case(tmpdir, 3, 1e-9, 1e-3), cell_finding_case(tmpdir, 4),
+             # called functions whose times sum to 0, under every option combination, through the
+             # other two entry points as well (statistics' unit != the profiler's own clock resolution)
+             with_entry(dict(finding_case(tmpdir, 5), unit=2.5e-7), 'print_stats'),
+             with_entry(dict(finding_case(tmpdir, 6), unit=1e-3), 'viewer')]
+    assert len(cases) == N_CANONICAL
     for i in range(n_hist):          # histories first: all steps of one history run in one driver process
         hs = history_cases(rnd, i, tmpdir)
         for j, h in enumerate(hs):
-            h['history'] = [{k: p[k] for k in ('dir', 'files', 'cells', 'stats', 'unit', 'output_unit')} for p in hs[:j]]
+            with_entry(h, ENTRIES[(i + 1) % len(ENTRIES)])
+            h['history'] = [{k: p.get(k) for k in ('dir', 'files', 'cells', 'stats', 'unit', 'output_unit', 'entry')} for p in hs[:j]]
         cases += hs
     assert len(cases) <= 200
     shape_names = sorted(SNIPPETS)
     for i in range(n_valid):
         # the first cases walk through every shape on its own, the rest mix them
         shapes = [shape_names[i % len(shape_names)]] if i < len(shape_names) else None
-        cases.append(gen_case(rnd, len(cases), tmpdir, shapes=shapes))
+        cases.append(with_entry(gen_case(rnd, len(cases), tmpdir, shapes=shapes), ENTRIES[i % len(ENTRIES)]))
     for i in range(n_bad):
-        cases.append(gen_case(rnd, len(cases), tmpdir, malformed=True))
+        cases.append(with_entry(gen_case(rnd, len(cases), tmpdir, malformed=True), ENTRIES[i % len(ENTRIES)]))
     return cases
 
 
@@ -725,14 +744,15 @@ SHARD_HEADER = ('From Coq Require Import QArith.\n'
                 'Open Scope Z_scope.\n')
 
 
-def coq_combos(tier, k, n_single_from=10 ** 9):
+def coq_combos(tier, k, n_single_from=16):
     """Which of the 16 reports of case k are also compared inside Coq.  Thorough: all.  Quick: all
     for the canonical cases, else the everything-on report plus five that rotate with k, so that
     every option combination is compared inside Coq in every run; the python-side predicate sees
     all 16 reports of every case in both tiers."""
-    if tier != 'quick' or k in (0, 1, 4) or k >= n_single_from:      # the two regression cases and one ties case: all 16
-        return set(range(16))
-    return {15} | {(5 * k + i) % 16 for i in range(5)}
+    n = n_single_from
+    if tier != 'quick' or k in (0, 1, 4, 5, 6):      # the regression cases and one ties case: all of them
+        return set(range(n))
+    return {n - 1} | {(5 * k + i) % n for i in range(5 if n == 16 else 2)}
 
 
 def build_shards(cases, outs, per=6, tier='thorough'):
@@ -748,13 +768,19 @@ def build_shards(cases, outs, per=6, tier='thorough'):
             defs.append(coq_case_defs(P, k, case, out['env']))
             for j, combo in enumerate(case['combos']):
                 o = out['parsed'][j]
-                if o is None or (len(case['combos']) > 1 and j not in coq_combos(tier, k)):
+                if o is None or (len(case['combos']) > 1 and j not in coq_combos(tier, k, len(case['combos']))):
                     continue
                 opts = '(mkOpts %s)' % ' '.join(core.coq_bool(x) for x in combo)
                 args = '%s %s c%d_env c%d_fs %s c%d_st %s' % (
                     coq_q(case['unit']), core.coq_opt(coq_q(case['output_unit']) if case['output_unit'] is not None else None),
                     k, k, opts, k, coq_obs(P, o))
-                if case.get('report') == 'python -m line_profiler':
+                if case.get('entry') == 'print_stats':
+                    rows.append(('(print_stats_case_ok %s)' if case['valid'] else '(fst (print_stats_case_ok %s), true)') % args)
+                elif case.get('entry') == 'viewer':
+                    row = '(viewer_case_ok %s %s %s c%d_env c%d_fs c%d_st %s)' % (
+                        coq_q(case['unit']), coq_q(case['output_unit']), ' '.join(core.coq_bool(x) for x in combo[:3]), k, k, k, coq_obs(P, o))
+                    rows.append(row if case['valid'] else '(fst %s, true)' % row)
+                elif case.get('report') == 'python -m line_profiler':
                     rows.append('(viewer_case_ok %s %s %s c%d_env c%d_fs c%d_st %s)' % (
                         coq_q(case['unit']), coq_q(case['output_unit']), ' '.join(core.coq_bool(x) for x in combo[:3]), k, k, k, coq_obs(P, o)))
                 elif case.get('report') == 'kernprof -l -v':
@@ -773,7 +799,7 @@ def build_shards(cases, outs, per=6, tier='thorough'):
 
 # ----------------------------------------------------------------------------------------
 def run_cases(impl, cases, tmp):
-    payload = dict(tmp=str(tmp), cases=[{k: c.get(k) for k in ('dir', 'files', 'cells', 'stats', 'unit', 'output_unit', 'combos')} for c in cases])
+    payload = dict(tmp=str(tmp), cases=[{k: c.get(k) for k in ('dir', 'files', 'cells', 'stats', 'unit', 'output_unit', 'combos', 'entry')} for c in cases])
     outs = []
     for chunk in core.chunks(payload['cases'], 200):
         outs += core.run_impl(impl, DRIVER, dict(tmp=str(tmp), cases=chunk))['cases']
@@ -813,7 +839,7 @@ def spec_failures(cases, outs):
 
 
 def slim(case, combo):
-    c = {k: case.get(k) for k in ('dir', 'files', 'cells', 'stats', 'unit', 'output_unit', 'valid', 'step')}
+    c = {k: case.get(k) for k in ('dir', 'files', 'cells', 'stats', 'unit', 'output_unit', 'valid', 'step', 'entry')}
     if case.get('step'):
         c['history'] = case['history']
     if case.get('session'):
@@ -920,7 +946,9 @@ def run(tier, seed):
              'valid stats with at least one recorded line and details or summarize on, distinct by (stats, units, options)',
         exhaustive=True,
         exhaustive_scope='all 16 (stripzeros, sort, summarize, details) combinations for every generated stats dict',
-        stats_dicts=len(cases), end_to_end_sessions=len(sessions), end_to_end_reports=len(s_cases),
+        stats_dicts=len(cases), entry_points={e: sum(len(c['combos']) for c in cases if (c.get('entry') or c.get('report')) == e)
+                                               for e in ('show_text', 'print_stats', 'viewer', 'kernprof -l -v', 'python -m line_profiler')},
+        end_to_end_sessions=len(sessions), end_to_end_reports=len(s_cases),
         sessions_with_two_spellings_of_one_file=sum(1 for x in sessions if x['self_import']),
         sessions_odd_line_chars=sorted({c for x in sessions for c in x['odd_chars']}),
         names_with_percent_sign=sum(1 for c in cases for fn, _, nm, _ in c['stats'] if '%' in fn or '%' in nm),
@@ -973,7 +1001,8 @@ def replay(path):
                               why=[f['why'] for f in fails]), indent=1))
         return 0 if not fails else 1
     # a multi-step case: the earlier reports of its history run first, in the same driver process
-    before = [dict(p, combos=case['combos'], valid=True) for p in case.get('history') or []]
+    before = [dict(p, combos=case['combos'] if p.get('entry') == case.get('entry') else [[False, False, False, True]], valid=True)
+              for p in case.get('history') or []]
     outs = run_cases(impl, before + [case], tmp)[len(before):]
     fails = spec_failures([case], outs)
     print(json.dumps(dict(options=case.get('options'), stats=case['stats'], earlier_reports=len(before), text=outs[0]['texts'][0]['text'],
